@@ -4,6 +4,7 @@ import (
 	"encoding/json"
 	"os"
 	"os/exec"
+	"regexp"
 	"strings"
 	"time"
 
@@ -147,8 +148,11 @@ func Worker(ctx *common.Ctx) {
 	os.Exit(0)
 }
 
+var instAddr = regexp.MustCompile(`#<([a-z0-9*+-]+) [0-9a-f]{8,}>`)
+
 // stripAddr removes the {c000123456} addresses slip prints for functions, methods and instances.
 func stripAddr(s string) string {
+	s = instAddr.ReplaceAllString(s, "#<$1>")
 	for {
 		i := strings.Index(s, " {c0")
 		if i < 0 {
